@@ -74,8 +74,9 @@ def run(prog, world, sem, rep):
             det = "prev_hub_balance := %s - %s" % (sem.label(pa[0]), show(pa[1], 3))
         else:
             det = "prev_hub_balance := %s" % (show(pb, 4) if pb is not None else None)
-        others = [f for f in ("total_bond_bsei_amount", "total_bond_stsei_amount", "bsei_exchange_rate", "stsei_exchange_rate", "last_processed_batch", "last_unbonded_time")
-                  if sem.label(sem.field_of(wv, f)) != stored(STATE, f)]
+        # (last_processed_batch is the release cursor: its writes are governed by C08.d wherever they happen)
+        others = [f for f in ("total_bond_bsei_amount", "total_bond_stsei_amount", "bsei_exchange_rate", "stsei_exchange_rate", "last_unbonded_time")
+                  if sem.labels(sem.field_of(wv, f)) != {stored(STATE, f)}]
         if others:
             okp = False
             det += "; also changes %s" % others
